@@ -152,7 +152,15 @@ def check_transition(rec, spec, e, harness_last, harness_loss):
     num, den = harness_last - (harness_loss if harness_loss is not None else e["loss"]), e["den"]
     quality = num / den if den != 0 else float("nan")
     cls = None
-    if math.isfinite(quality):
+    # near convergence actual and predicted decrease are both at rounding level of the loss: the ratio is numerical noise
+    # (the harness' and pypose's losses legitimately differ in the last bits), so the documented branch is not determined
+    noise = 256 * 2.220446049250313e-16 * max(abs(harness_last), abs(e["loss"]), 1e-300)
+    q_rec = (e["last"] - e["loss"]) / den if den != 0 else float("nan")
+    if abs(num) <= noise or abs(den) <= noise:
+        cls = "ambiguous"
+    elif math.isfinite(quality) and math.isfinite(q_rec) and any((quality > th) != (q_rec > th) for th in (spec["high"], spec["low"])):
+        cls = "ambiguous"          # classification flips between the harness' and the recorded loss values
+    if cls is None and math.isfinite(quality):
         for th in (spec["high"], spec["low"]):
             if abs(quality - th) <= 1e-6 * max(1.0, abs(th)):
                 cls = "ambiguous"
@@ -305,7 +313,7 @@ class Histories(Sub):
 
     def valid(self, case):
         s = case["strategy"]
-        return s["damping"] > 0 and (s["kind"] == "Constant" or (s["min"] <= s["max"] and 0 < s["down"] < 1 < s["up"] and s["high"] > 0 and s["low"] > 0)) and case["kdelta"] > 0
+        return s["damping"] > 0 and (s["kind"] == "Constant" or (0 < s["min"] <= s["max"] and 0 < s["down"] < 1 < s["up"] and s["high"] > 0 and s["low"] > 0)) and case["kdelta"] > 0
 
     def simplify(self, case):
         sc = case["script"]
